@@ -1,6 +1,7 @@
 package engine
 
 import (
+	"context"
 	"encoding/base64"
 	"net/http"
 	"runtime"
@@ -459,5 +460,41 @@ func VerifH_C01_send_races_upgrade_check() {
 		if c.sock.ReadyState() == "open" {
 			verif.Assert(len(got) == len(want), "while the session stays open no accepted message is lost")
 		}
+	})
+}
+
+// VerifH_C09_aborted_poll_releases_handler: the client abandons a pending long poll (its
+// request context is cancelled) with nothing queued for it: the handler serving that request
+// returns (it is not left waiting for a response that will never be written), the session is
+// closed for it, and the server keeps serving other clients.
+func VerifH_C09_aborted_poll_releases_handler() {
+	verif.RunTimed(func() {
+		c := newPollClient(config.DefaultServerOptions())
+		c.request("GET", "")
+		if c.sock == nil {
+			return
+		}
+		w := &fakeWriter{}
+		cctx, cancel := context.WithCancel(context.Background())
+		r := (&http.Request{Method: "GET", URL: mustURL("/engine.io/?EIO=4&transport=polling&sid=" + c.sid), Header: http.Header{}, Proto: "HTTP/1.1", RemoteAddr: "192.0.2.1:1"}).WithContext(cctx)
+		hctx := types.NewHttpContext(w, r)
+		verif.Cleanup(hctx.Flush)
+		returned := false
+		go func() {
+			c.ps.HandleRequest(hctx)
+			returned = true
+		}()
+		verif.Settle()
+		verif.Assert(!returned && w.writeCalls == 0, "the poll is pending")
+		cancel() // the client goes away
+		verif.Settle()
+		verif.Settle()
+		verif.Assert(returned, "the handler of an abandoned poll returns")
+		verif.Assert(len(c.closes) == 1, "and the session is closed for it, once")
+		c2 := newPollClient(config.DefaultServerOptions())
+		c2.ps = c.ps
+		c.ps.On("connection", func(a ...any) { c2.sock = a[0].(Socket); c2.sid = c2.sock.Id() })
+		hs := c2.request("GET", "")
+		verif.Assert(hs.answered(), "other clients are still served")
 	})
 }
